@@ -899,20 +899,30 @@ fn event(ev: &str, seq: u64, thr: usize, route: &str, host: usize, size: usize, 
 fn do_set(cache: &RwLock<Cache>, log: &Log, thr: usize, route: &str, host: usize, data: Vec<u8>, mime: MimeType, _virt: bool) {
     let size = data.len();
     let hash = h31(&data);
-    let mut g = cache.write().unwrap();
+    let mut g = cache.write().unwrap_or_else(|e| e.into_inner());
     let lo = now_secs();
-    g.set(route, host, data, mime);
+    // a panic of the code under test is data (aux = 2), not a crash of the harness
+    let panicked = catch_unwind(AssertUnwindSafe(|| g.set(route, host, data, mime))).is_err();
     let hi = now_secs();
     let seq = log.next();
-    log.push(seq, event("set", seq, thr, route, host, size, hash, &mime.to_string(), lo, hi, None, log.limit, log.tl, 0));
+    log.push(seq, event("set", seq, thr, route, host, size, hash, &mime.to_string(), lo, hi, None, log.limit, log.tl, if panicked { 2 } else { 0 }));
     drop(g);
 }
 
 /// Cache::get under the read guard, event logged while the guard is held
 fn do_get(cache: &RwLock<Cache>, log: &Log, thr: usize, route: &str, host: usize, _virt: bool) {
-    let g = cache.read().unwrap();
+    let g = cache.read().unwrap_or_else(|e| e.into_inner());
     let lo = now_secs();
-    let r = g.get(route, host);
+    let r = match catch_unwind(AssertUnwindSafe(|| g.get(route, host))) {
+        Ok(r) => r,
+        Err(_) => {
+            // reported as a hit that carries a wrong key: never acceptable
+            let hi = now_secs();
+            let seq = log.next();
+            log.push(seq, event("get", seq, thr, route, host, 0, 0, "", lo, hi, Some((0, 0, "panic".into(), lo)), log.limit, log.tl, 1));
+            return;
+        }
+    };
     let hi = now_secs();
     let res = r.map(|i| (i.data.len(), h31(&i.data), i.mime_type.to_string(), i.cache_time as i64));
     let wrong_key = r.map(|i| i.route != route || i.host != host).unwrap_or(false);
